@@ -487,9 +487,9 @@ func cmdThresholds(args []string) int {
 		"coverage": map[string]interface{}{
 			"states": maxInt(nObl, 1), "transitions": maxInt(queries, 1), "traces_validated_against_impl": 0, "samples": samples,
 			"obligations": nObl, "discharged": nDis, "functions_encoded": fl, "outside_claim": outside,
-			"solver": map[string]interface{}{"kind": "z3", "queries": queries, "solver_s": solverT.Seconds()},
+			"solver":      map[string]interface{}{"kind": "z3", "queries": queries, "solver_s": solverT.Seconds()},
 			"explanation": "states = obligations (one per extracted threshold expression and phi-edge variant, plus arithmetic lemmas); transitions = solver queries; each obligation is a bit-vector equivalence/validity query answered unsat for all values within the stated assumptions",
-			"exhaustive": exit == 0,
+			"exhaustive":  exit == 0,
 		},
 	}
 	eb, _ := json.MarshalIndent(ev, "", " ")
